@@ -293,6 +293,7 @@ func VerifC09_DHCP() {
 	m, err := w.Write(buf[:n])
 	vr.Assert(err == nil, "decode-ok")
 	vr.Assert(m == n, "bytes-consumed==bytes-produced")
+	vr.Assert(int(v.Len()) == n && int(w.Len()) == n, "size==bytes-consumed")
 	vr.Assert(w.Operation == v.Operation && w.HardwareType == v.HardwareType && w.HardwareLen == v.HardwareLen && w.HardwareOpts == v.HardwareOpts, "fixed-fields-1")
 	vr.Assert(w.Xid == v.Xid && w.Secs == v.Secs && w.Flags == v.Flags, "fixed-fields-2")
 	vr.Assert(vr.DeepEq(w.ClientIP, v.ClientIP) && vr.DeepEq(w.YourIP, v.YourIP) && vr.DeepEq(w.ServerIP, v.ServerIP) && vr.DeepEq(w.GatewayIP, v.GatewayIP), "addresses")
